@@ -5,11 +5,21 @@
 //
 // Engine E4 on the real Handler (see rig/rig.go): every per-destination outcome vector x every arrival order,
 // replies delivered one at a time under testing/synctest, "handler has returned" read after every reply.
+//
+// History dimension: the handler keeps state between requests (pooled destination maps / id slices / counters,
+// peer state). The observed request is therefore also run as the LAST of a short history on one handler: a
+// preceding request from {none, stored everywhere, conflict everywhere, rejected while its series were being
+// distributed (invalid split-tenant label value on a later series), rejected by a Hashring.GetN error (tenant whose
+// hashring is smaller than the replication factor)} with the split-tenant label option configured. The oracle of
+// the observed request is unchanged. sync.Pool hands an item back to the P that put it, so the process runs on one
+// P (GOMAXPROCS 1; the driver shards the space over processes): what one request leaves in a pool is what the next
+// one draws, on every run.
 package c22
 
 import (
 	"fmt"
 	"iter"
+	"runtime"
 	"testing"
 
 	"verif/checks/c22/rig"
@@ -24,6 +34,92 @@ type family struct {
 	rep      int
 	grpc     bool
 	alphabet []int // outcome symbols per destination
+	// history dimension (zero values: a single request on a fresh handler, option not configured)
+	split     bool    // split-tenant label configured
+	lastLabel bool    // the observed request's series carry the split-tenant label
+	pres      [][]int // histories to cross with (nil: just the empty history)
+}
+
+// histories lists the predecessor sequences up to the given length over the kinds that the family admits.
+func histories(rf, maxLen int) [][]int {
+	kinds := []int{rig.PreOK, rig.PreConflict, rig.PreBadLabel}
+	if rf >= 2 {
+		kinds = append(kinds, rig.PreGetN)
+	}
+	out := [][]int{nil}
+	for n := 1; n <= maxLen; n++ {
+		for t := range vlib.Tuples(n, len(kinds)) {
+			h := make([]int, n)
+			for i, x := range t {
+				h[i] = kinds[x]
+			}
+			out = append(out, h)
+		}
+	}
+	return out
+}
+
+// historyFamilies: small request shapes crossed with every history (split-tenant label configured throughout).
+func historyFamilies(thorough bool) []family {
+	full := []int{rig.OK, rig.Conflict, rig.Unavailable, rig.Other}
+	three := []int{rig.OK, rig.Conflict, rig.Unavailable}
+	two := []int{rig.OK, rig.Unavailable}
+	var fs []family
+	add := func(f family, maxLen int) {
+		f.split = true
+		f.pres = histories(f.top.RF, maxLen)
+		fs = append(fs, f)
+	}
+	depth3 := 1 // history length for the RF 3 one-series families
+	if thorough {
+		depth3 = 2
+	}
+	// H-A. one series, RF 1..4, handler outside the ring / is replica 0.
+	for rf := 1; rf <= 4; rf++ {
+		for _, local := range []int{-1, 0} {
+			alpha, depth := full, 1
+			if rf == 3 {
+				depth = depth3
+			}
+			if rf == 4 && !thorough {
+				alpha = two
+				if local == 0 {
+					continue
+				}
+			}
+			add(family{top: rig.Topology{RF: rf, Nodes: rf, Local: local}, homes: []int{0}, alphabet: alpha}, depth)
+		}
+	}
+	// H-B. the observed request is split by the tenant label itself.
+	for _, local := range []int{-1, 0} {
+		add(family{top: rig.Topology{RF: 3, Nodes: 3, Local: local}, homes: []int{0}, alphabet: full, lastLabel: true}, 1)
+	}
+	add(family{top: rig.Topology{RF: 2, Nodes: 3, Local: -1}, homes: []int{0, 1}, alphabet: two, lastLabel: true}, 1)
+	// H-C. several series: shared destinations, overlapping replica sets, more nodes than replicas, handler a later replica.
+	add(family{top: rig.Topology{RF: 3, Nodes: 3, Local: -1}, homes: []int{0, 0}, alphabet: full}, 1)
+	add(family{top: rig.Topology{RF: 3, Nodes: 3, Local: 0}, homes: []int{0, 0}, grpc: true, alphabet: full}, 1)
+	add(family{top: rig.Topology{RF: 3, Nodes: 3, Local: 1}, homes: []int{0}, alphabet: full}, 1)
+	add(family{top: rig.Topology{RF: 2, Nodes: 4, Local: 3}, homes: []int{2}, alphabet: full}, 1)
+	if thorough {
+		add(family{top: rig.Topology{RF: 2, Nodes: 3, Local: -1}, homes: []int{0, 1}, alphabet: full}, 1)
+		add(family{top: rig.Topology{RF: 2, Nodes: 3, Local: 0}, homes: []int{0, 1}, alphabet: full}, 1)
+		add(family{top: rig.Topology{RF: 3, Nodes: 4, Local: -1}, homes: []int{0, 0, 0}, alphabet: full}, 1)
+		add(family{top: rig.Topology{RF: 5, Nodes: 5, Local: -1}, homes: []int{0}, alphabet: two}, 1)
+	} else {
+		add(family{top: rig.Topology{RF: 2, Nodes: 3, Local: -1}, homes: []int{0, 1}, alphabet: three}, 1)
+	}
+	// H-D. already replicated observed request (replica header 1..RF+1), both entry points.
+	for rf := 2; rf <= 3; rf++ {
+		for rep := 1; rep <= rf+1; rep++ {
+			for _, g := range []bool{false, true} {
+				for _, local := range []int{-1, 0} {
+					add(family{top: rig.Topology{RF: rf, Nodes: rf, Local: local}, homes: []int{0}, rep: rep, grpc: g, alphabet: full}, 1)
+					add(family{top: rig.Topology{RF: rf, Nodes: rf, Local: local}, homes: []int{0, 1}, rep: rep, grpc: g, alphabet: full}, 1)
+				}
+			}
+		}
+	}
+	return fs
 }
 
 // families lists the (topology, request) shapes; each is crossed with alphabet^dests x all orders.
@@ -116,7 +212,8 @@ func localOnce(f family) bool {
 
 func gen(r *vlib.R) iter.Seq[Case] {
 	return func(yield func(Case) bool) {
-		for _, f := range families(r.Thorough()) {
+		// the history families come first: they are the smaller part, a deadline cuts the tail of the older families
+		for _, f := range append(historyFamilies(r.Thorough()), families(r.Thorough())...) {
 			if !localOnce(f) {
 				panic("family uses the local node for two destinations (the local TSDB stub cannot tell them apart)")
 			}
@@ -136,14 +233,21 @@ func gen(r *vlib.R) iter.Seq[Case] {
 				if nBack > 0 && len(f.homes) > 1 {
 					continue // back-off replies cannot be ordered among themselves; single-series families only
 				}
+				pres := f.pres
+				if pres == nil {
+					pres = [][]int{nil}
+				}
 				for perm := range vlib.Perms(len(live)) {
 					order := make([]int, len(live))
 					for i, p := range perm {
 						order[i] = live[p]
 					}
-					c := Case{Top: f.top, Homes: f.homes, Rep: f.rep, GRPC: f.grpc, Outcomes: out, Order: order}
-					if !yield(c) {
-						return
+					for _, pre := range pres {
+						c := Case{Top: f.top, Homes: f.homes, Rep: f.rep, GRPC: f.grpc, Outcomes: out, Order: order,
+							Split: f.split, LastLabel: f.lastLabel, Pre: pre}
+						if !yield(c) {
+							return
+						}
 					}
 				}
 			}
@@ -152,17 +256,26 @@ func gen(r *vlib.R) iter.Seq[Case] {
 }
 
 func TestCheck(t *testing.T) {
+	// One P: a sync.Pool item put by one request (or by its clean-up goroutine) is then the item the next request of
+	// the same handler draws, deterministically. Parallelism comes from the driver's shards (meta.json "workers").
+	runtime.GOMAXPROCS(1)
 	r := vlib.New(t, "C22")
 	defer r.Finish()
 	r.Rule("real receive.Handler; families: 1 series RF 1..5 (handler outside ring / is replica 0,1,2), 2-3 series over 3-4 nodes with shared, " +
 		"overlapping and disjoint replica sets, already-replicated requests (replica 1..RF+1) via HTTP and gRPC, fresh via gRPC; each crossed with " +
 		"every outcome vector over {ok,conflict,unavailable,other[,backoff]} per (node,replica) destination x every arrival order; " +
-		"non-trivial = distinct case with at least one ok and one failed destination")
+		"additionally (split-tenant label configured) the smaller shapes (1 series RF 1..4, 2 series on shared / overlapping replica sets, handler as a later replica, " +
+		"observed request split by the tenant label itself, already-replicated requests) are run as the last request of a history on the same handler: preceding request in " +
+		"{none, stored everywhere, conflict everywhere, rejected in distribution by an invalid split-tenant label value on its last series, rejected by Hashring.GetN " +
+		"for a tenant whose hashring has RF-1 nodes} (thorough: histories of length 2 for RF 3); " +
+		"non-trivial = distinct case with at least one ok and one failed destination (history cases: and every predecessor ended as intended)")
 	r.Assume("write quorum = floor(RF/2)+1, and 1 for RF 2 (the documented exception in Handler.writeQuorum); computed by the check, not read from the handler",
 		"the hashring placement is taken as given (hashmod ring; C18-C21 cover placement)",
 		"a peer that answers ok has stored every series of the forwarded request, a peer that answers with an error stored none",
 		"arrival order is the release order of the stubs (synctest.Wait between releases); back-off replies always arrive first (produced synchronously by sendWrites)",
-		"receiver mode RouterIngestor, protobuf replication, no relabelling, no limits, forward timeout never fires; worker pools are never saturated (8 workers per peer)")
+		"receiver mode RouterIngestor, protobuf replication, no relabelling, no limits, forward timeout never fires; worker pools are never saturated (8 workers per peer)",
+		"history: requests of one handler are handled one after the other (a predecessor has returned, all its replies were delivered and its clean-up goroutine has finished before the next request starts); "+
+			"the process runs on one P so that sync.Pool reuse between them is the deterministic worst case (always reused)")
 	vlib.ForEach(r, gen(r), func(c Case) {
 		tr := rig.Run(t, c)
 		r.Sample(c)
@@ -178,8 +291,59 @@ func TestCheck(t *testing.T) {
 				nBad++
 			}
 		}
-		if nOK > 0 && nBad > 0 {
+		// history: did every predecessor end the way its kind says (so that the observed request really follows that history)?
+		preAsIntended := true
+		for j, pt := range tr.Pre {
+			var ok bool
+			switch pt.Kind {
+			case rig.PreOK:
+				ok = pt.Resp.Acked() || c.Rep > c.Top.RF
+			case rig.PreConflict:
+				ok = !pt.Resp.Acked() && pt.Resp.Panic == ""
+			case rig.PreBadLabel:
+				ok = pt.Resp.Returned && pt.Resp.Status == 400 && pt.Contacted == 0
+			case rig.PreGetN:
+				ok = pt.Resp.Returned && !pt.Resp.Acked() && pt.Resp.Panic == "" && pt.Contacted == 0
+			}
+			r.Add(fmt.Sprintf("history_%s_status_%d", rig.PreNames[pt.Kind], pt.Resp.Status), 1)
+			if !ok {
+				preAsIntended = false
+				r.Add("history_predecessor_not_as_intended", 1)
+			}
+			if pt.Resp.Panic != "" {
+				r.Violation("request-handling-panicked", fmt.Sprintf("predecessor %d (%s) panicked: %s", j, rig.PreNames[pt.Kind], pt.Resp.Panic), c)
+				return
+			}
+			// the property holds for every request of the history: an acknowledged predecessor must have every series on a
+			// quorum of nodes (judged on the stores at the end of the experiment: weaker than the statement, never stronger)
+			if pt.Resp.Acked() {
+				need := refQuorum(c.Top.RF)
+				if c.Rep > 0 && (pt.Kind == rig.PreOK || pt.Kind == rig.PreConflict) {
+					need = 1
+				}
+				for si, nodes := range pt.Stored {
+					if len(nodes) < need {
+						r.Violation("earlier-request-acknowledged-without-quorum", fmt.Sprintf("predecessor %d (%s) got status %d but its series %d is stored on nodes %v only (needs %d)",
+							j, rig.PreNames[pt.Kind], pt.Resp.Status, si, nodes, need), c)
+						return
+					}
+				}
+			}
+		}
+		if len(c.Pre) > 0 || c.Split {
+			r.Add("history_cases", 1)
+		}
+		if tr.Unexpected > 0 {
+			r.Add("stub_calls_for_destinations_without_series_of_the_request", int64(tr.Unexpected))
+		}
+		if tr.Repeated > 0 {
+			r.Add("repeated_stub_calls_for_one_destination", int64(tr.Repeated))
+		}
+		if nOK > 0 && nBad > 0 && preAsIntended {
 			r.Nontrivial(fmt.Sprint(c))
+			if len(c.Pre) > 0 {
+				r.Add("history_nontrivial", 1)
+			}
 		}
 		if len(tr.NotContacted) > 0 {
 			r.Add("destinations_never_contacted", int64(len(tr.NotContacted)))
@@ -190,7 +354,7 @@ func TestCheck(t *testing.T) {
 		}
 		acked := tr.Resp.Acked()
 		early := tr.ReturnedAfter >= 0 && tr.ReturnedAfter < len(c.Order)
-		r.Outcome(fmt.Sprintf("rf=%d series=%d rep=%d acked=%v early=%v status=%d", c.Top.RF, len(c.Homes), c.Rep, acked, early, tr.Resp.Status))
+		r.Add(fmt.Sprintf("status_%d", tr.Resp.Status), 1)
 		if !tr.Resp.Returned {
 			r.Add("returned_only_at_forward_timeout", 1)
 		}
